@@ -342,6 +342,11 @@ def configs(tier):
                  ("clang-args", "clang-arg-single"), ("formatter=none", "disable-header-comment"),
                  ("merge-extern-blocks", "wasm-import-module-name=wmod"), ("sort-semantically", "merge-extern-blocks")]:
         inter.append(combine(byname[a], byname[b]))
+    # an exception carved out of a broader pattern by a more specific option of the same family, with the default style untouched
+    # (the specific one must survive the round trip on its own, not only next to --default-*-style)
+    for a, b in [("new-type-alias=my.*", "normal-alias=myint"), ("new-type-alias-deref=myint", "normal-alias=myint"), ("rustified-enum=E.*", "constified-enum=E"),
+                 ("bitfield-enum=F|E", "constified-enum-module=E"), ("bindgen-wrapper-union=NC|UN", "manually-drop-union=NC|UN")]:
+        inter.append(combine(byname[a], byname[b]))
     if tier == "quick":
         # quick: a third of the boolean pairs, rotated by VERIF_SEED; thorough: all
         seed = int(os.environ.get("VERIF_SEED", "0") or 0)
